@@ -1482,5 +1482,166 @@ impl BlobIndirection {
 //@ END
 }
 
+
+// ---------------- blob file scanner (vlog/blob_file/scanner.rs): what relocation / GC reads blob files with ----------------
+pub const METADATA_HEADER_MAGIC: [u8; 4] = [b'M', b'E', b'T', b'A'];
+type SeqNo = u64;
+/// BufReader<File> over a blob file: an io::Read source that also knows its stream position
+struct BlobStream { ghost rest: Seq<u8>, ghost pos: u64 }
+impl Read for BlobStream {
+    spec fn rest(&self) -> Seq<u8> { self.rest }
+    uninterp spec fn seen(&self) -> Seq<u8>;
+    type Id = ();
+    #[verifier::prophetic] spec fn src_id(&self) -> () { () }
+    #[verifier::external_body]
+    fn read(&mut self, buf: &mut [u8]) -> (r: Result<usize, Error>) { unimplemented!() }
+}
+impl BlobStream {
+    /// Seek::stream_position
+    #[verifier::external_body]
+    fn stream_position(&mut self) -> (r: Result<u64, Error>) ensures final(self).rest == old(self).rest, final(self).pos == old(self).pos, r is Ok ==> r->Ok_0 == old(self).pos { unimplemented!() }
+}
+//@ FROM src/vlog/blob_file/scanner.rs :: - :: struct Scanner
+//@ SUBST `BufReader < File >` ==> `BlobStream`
+struct Scanner {
+    blob_file_id: BlobFileId, // TODO: remove unused?
+    inner: BlobStream,
+    is_terminated: bool,
+}
+//@ END
+//@ FROM src/vlog/blob_file/scanner.rs :: - :: struct ScanEntry
+struct ScanEntry {
+    key: UserKey,
+    seqno: SeqNo,
+    value: UserValue,
+    offset: u64,
+    uncompressed_len: u32,
+}
+//@ END
+impl Scanner {
+//@ FROM src/vlog/blob_file/scanner.rs :: impl Iterator for Scanner :: fn next :: OBL C10.13, C08.15
+//@ SUBST `Self :: Item` ==> `Result<ScanEntry, Error>`
+//@ SUBST `fail_iter ! ( $1 )` ==> `match $1 { Ok(v) => v, Err(e) => return Some(Err(e)) }`
+//@ SUBST `[ 0 ; BLOB_HEADER_MAGIC . len ( ) ]` ==> `[0u8; 4]`
+//@ SUBST `read_u128 :: < LittleEndian >` ==> `read_u128_le`
+//@ SUBST `read_u64 :: < LittleEndian >` ==> `read_u64_le`
+//@ SUBST `read_u32 :: < LittleEndian >` ==> `read_u32_le`
+//@ SUBST `read_u16 :: < LittleEndian >` ==> `read_u16_le`
+//@ SUBST `xxhash_rust :: xxh3 :: Xxh3 :: default ( )` ==> `Xxh3::default()`
+//@ SUBST `crate :: Error ::` ==> `Error::`
+    fn next(&mut self) -> /*+*/(r:/*-*/ Option<Result<ScanEntry, Error>>/*+*/)
+        ensures
+            old(self).is_terminated ==> r is None,
+            // an entry is only handed out if its frame is intact: magic, and the recorded xxh3-128 equals the hash of key ++ payload
+            r matches Some(Ok(e)) ==> !old(self).is_terminated && e.offset == old(self).inner.pos && ({
+                let f = old(self).inner.rest; let klen = e.key@.len() as int; let vlen = e.value@.len() as int;
+                f.len() >= 38 + klen + vlen && f.subrange(0, 4) == BLOB_HEADER_MAGIC@ && un_le128(f.subrange(4, 20)) == hash128(e.key@ + e.value@)
+                && e.seqno == un_le64(f.subrange(20, 28)) && klen == un_le16(f.subrange(28, 30)) && e.uncompressed_len == un_le32(f.subrange(30, 34)) && vlen == un_le32(f.subrange(34, 38))
+                && e.key@ == f.subrange(38, 38 + klen) && e.value@ == f.subrange(38 + klen, 38 + klen + vlen)
+                && final(self).inner.rest == f.skip(38 + klen + vlen) }),
+            // the metadata section ends the scan
+            r is None && !old(self).is_terminated ==> final(self).is_terminated && old(self).inner.rest.len() >= 4 && old(self).inner.rest.subrange(0, 4) == METADATA_HEADER_MAGIC@,/*-*/
+    {
+        /*+*/let ghost f = self.inner.rest;/*-*/
+        if self.is_terminated {
+            return None;
+        }
+
+        let offset = match self.inner.stream_position() { Ok(v) => v, Err(e) => return Some(Err(e)) };
+
+        {
+            let mut buf = [0u8; 4];
+            match self.inner.read_exact(&mut buf) { Ok(v) => v, Err(e) => return Some(Err(e)) };
+
+            if buf == METADATA_HEADER_MAGIC {
+                /*+*/proof { assert(buf@ =~= METADATA_HEADER_MAGIC@); }/*-*/
+                self.is_terminated = true;
+                return None;
+            }
+
+            if buf != BLOB_HEADER_MAGIC {
+                return Some(Err(Error::InvalidHeader("Blob")));
+            }
+            /*+*/proof { assert(buf@ =~= BLOB_HEADER_MAGIC@); }/*-*/
+        }
+
+        let expected_checksum = match self.inner.read_u128_le() { Ok(v) => v, Err(e) => return Some(Err(e)) };
+        let seqno = match self.inner.read_u64_le() { Ok(v) => v, Err(e) => return Some(Err(e)) };
+
+        let key_len = match self.inner.read_u16_le() { Ok(v) => v, Err(e) => return Some(Err(e)) };
+
+        let real_val_len = match self.inner.read_u32_le() { Ok(v) => v, Err(e) => return Some(Err(e)) };
+
+        let on_disk_val_len = match self.inner.read_u32_le() { Ok(v) => v, Err(e) => return Some(Err(e)) };
+        /*+*/proof {
+            assert(f.skip(4).subrange(0, 16) =~= f.subrange(4, 20)); assert(f.skip(4).skip(16) =~= f.skip(20));
+            assert(f.skip(20).subrange(0, 8) =~= f.subrange(20, 28)); assert(f.skip(20).skip(8) =~= f.skip(28));
+            assert(f.skip(28).subrange(0, 2) =~= f.subrange(28, 30)); assert(f.skip(28).skip(2) =~= f.skip(30));
+            assert(f.skip(30).subrange(0, 4) =~= f.subrange(30, 34)); assert(f.skip(30).skip(4) =~= f.skip(34));
+            assert(f.skip(34).subrange(0, 4) =~= f.subrange(34, 38)); assert(f.skip(34).skip(4) =~= f.skip(38));
+        }/*-*/
+
+        let key = match UserKey::from_reader(&mut self.inner, key_len as usize) { Ok(v) => v, Err(e) => return Some(Err(e)) };
+
+        let value = match UserValue::from_reader(
+            &mut self.inner,
+            on_disk_val_len as usize
+        ) { Ok(v) => v, Err(e) => return Some(Err(e)) };
+        /*+*/proof {
+            let kl = key_len as int; let vl = on_disk_val_len as int;
+            assert(f.skip(38).subrange(0, kl) =~= f.subrange(38, 38 + kl)); assert(f.skip(38).skip(kl) =~= f.skip(38 + kl));
+            assert(f.skip(38 + kl).subrange(0, vl) =~= f.subrange(38 + kl, 38 + kl + vl)); assert(f.skip(38 + kl).skip(vl) =~= f.skip(38 + kl + vl));
+        }/*-*/
+
+        {
+            let checksum = {
+                let mut hasher = Xxh3::default();
+                hasher.update(&key);
+                hasher.update(&value);
+                hasher.digest128()
+            };
+            /*+*/proof { assert(Seq::<u8>::empty() + key@ + value@ =~= key@ + value@); }/*-*/
+
+            if expected_checksum != checksum {
+
+                return Some(Err(Error::ChecksumMismatch {
+                    got: Checksum::from_raw(checksum),
+                    expected: Checksum::from_raw(expected_checksum),
+                }));
+            }
+        }
+
+        Some(Ok(ScanEntry {
+            key,
+            seqno,
+            value,
+            offset,
+            uncompressed_len: real_val_len,
+        }))
+    }
+//@ END
+}
+/// what the writer appends (blob_frame, C12.12) is what the scanner hands back
+proof fn lemma_scan_roundtrip(key: Seq<u8>, seqno: u64, value: Seq<u8>, ul: u32, tail: Seq<u8>)
+    requires key.len() <= u16::MAX, value.len() <= u32::MAX
+    ensures ({ let f = blob_frame(key, seqno, value, ul) + tail; let klen = key.len() as int; let vlen = value.len() as int;
+        f.len() >= 38 + klen + vlen && f.subrange(0, 4) == BLOB_HEADER_MAGIC@ && un_le128(f.subrange(4, 20)) == hash128(key + value)
+        && un_le64(f.subrange(20, 28)) == seqno && un_le16(f.subrange(28, 30)) == klen && un_le32(f.subrange(30, 34)) == ul && un_le32(f.subrange(34, 38)) == vlen
+        && f.subrange(38, 38 + klen) == key && f.subrange(38 + klen, 38 + klen + vlen) == value && f.skip(38 + klen + vlen) == tail })
+{
+    broadcast use axiom_le;
+    let f = blob_frame(key, seqno, value, ul) + tail; let klen = key.len() as int; let vlen = value.len() as int;
+    assert(BLOB_HEADER_MAGIC@.len() == 4);
+    assert(f.subrange(0, 4) =~= BLOB_HEADER_MAGIC@);
+    assert(f.subrange(4, 20) =~= le128(hash128(key + value)));
+    assert(f.subrange(20, 28) =~= le64(seqno));
+    assert(f.subrange(28, 30) =~= le16(key.len() as u16));
+    assert(f.subrange(30, 34) =~= le32(ul));
+    assert(f.subrange(34, 38) =~= le32(value.len() as u32));
+    assert(f.subrange(38, 38 + klen) =~= key);
+    assert(f.subrange(38 + klen, 38 + klen + vlen) =~= value);
+    assert(f.skip(38 + klen + vlen) =~= tail);
+}
+
 }
 fn main() {}
